@@ -28,8 +28,8 @@ def gen_cases(tier, seed):
         c["op"] = "vcurve"
         cases.append(c)
 
-    sizes = [5, 6, 8, 10, 12, 16] if quick else [5, 6, 8, 12, 16, 24, 32, 48, 64]
-    for _ in range(70 if quick else 600):
+    sizes = [5, 6, 8, 10, 12, 16] if quick else [5, 6, 8, 12, 16, 24, 32, 48]
+    for _ in range(70 if quick else 400):
         variant = rng.choice(["v", "vp", "vplc"])
         n = rng.choice(sizes)
         if variant != "v" and n > 32:
@@ -38,7 +38,7 @@ def gen_cases(tier, seed):
         y = gaps(rng, series(rng, n, rng.choice(["noise", "season", "steps", "season"])), nd, rng.choice([0.0, 0.1, 0.3]))
         c = {"variant": variant, "y": [str(v) for v in y], "nd": str(nd), "api": rng.choice(["kernel", "kernel", "accessor"])}
         if variant != "vplc":
-            ng = rng.randint(3, 8 if quick else 40)
+            ng = rng.randint(3, 8 if quick else 24) if rng.random() < 0.9 else rng.randint(3, 8 if quick else 40)
             if variant == "vp" and ng > 16:
                 ng = 16
             start = rng.choice([-3.0, -2.0, -1.0, 0.0, rng.uniform(-3, 1)])
